@@ -81,6 +81,10 @@ def lemma_target_not_below_child(reg, repo):
         ("depths_nonneg", hyp, z3.And(dc >= 0, dr >= 0, da >= 0)),
         ("target_is_not_at_or_below_the_child", hyp + [outside, inst, dc >= 0, dr >= 0, da >= 0],
          z3.Not(tobool(desc(H, child, r)))),
+        # the root keeps a child: the left neighbour hangs below another child of the root
+        ("root_keeps_another_child", hyp + [outside, H.parent_t(child.t) != 0, H.depth(VRef(H.parent_t(child.t))).t == 0,
+                                            an(a, 0) == H.parent_t(child.t), da >= 1],
+         H.nchild_t(H.parent_t(child.t)) >= 2),
     ]
 
 
